@@ -120,6 +120,9 @@ class FileCache:
                 self.current_memory_usage += memory_usage
                 self.file_futures[file_name] = (False, memory_usage, info[-1])
             else:
+                # not cached: an LRU entry left from an earlier cached version would name a file without an entry
+                self.file_access_times = [(t, fn) for t, fn in self.file_access_times if fn != file_name]
+                heapq.heapify(self.file_access_times)
                 del self.file_futures[file_name]
 
     def update_file(self, file_name, new_file_contents, use_fsync=False):
